@@ -35,7 +35,7 @@ PROPS = {
     "C03": dict(modules=["Emu8086.Props.C03"], runs=[("l1", "muldiv"), ("l2", "muldiv"), ("l2", "divx")], gen=["Arch"],
                 rule="L1: MUL/IMUL/DIV/IDIV byte forms on (lattice+random AX) x all 256 operands, word forms on lattice triples + random 48-bit triples "
                      "biased to the quotient-overflow boundary; adjusts on AX x {AF,CF}; non-trivial = state changed or divide error"),
-    "C04": dict(modules=["Emu8086.Props.C04", "Emu8086.Props.ExecAll"], runs=[("l2", "mov+xfer"), ("l2", "arith+logic+shift+muldiv"), ("l3", "operands")], gen=["Arch", "ILiterals"],
+    "C04": dict(modules=["Emu8086.Props.C04", "Emu8086.Props.ExecAll"], runs=[("l2", "mov+xfer"), ("l2", "arith+logic+shift+muldiv"), ("l3", "operands"), ("l4", "dataref")], gen=["Arch", "ILiterals"],
                 rule="L2 (Interpreter::parse on a fully specified machine): random lines of the MOV/XCHG/LEA and ALU families over all operand shapes "
                      "(direct, indirect, based, indexed, based-indexed, +-displacement, segment override, data label) x adversarial registers/segments "
                      "(lattice values, segments straddling 2^20); memory is a position-dependent pattern, so a read identifies the address used and the "
@@ -55,12 +55,12 @@ PROPS = {
                 rule="L2: every instruction class x adversarial machine states (registers from {0,1,7FFFh,8000h,FFFEh,FFFFh,random}, segments straddling 2^20, "
                      "counts 0..255, divisors 0/1/-1) with catch_unwind in an overflow-checking build: a PANIC of the real code is a violation; malformed = "
                      "near-miss lines the assembler never emits (must be a reported error in both); divx = MUL/IMUL/DIV/IDIV over the boundary lattice^3 of (AX, DX, operand) x 10 operand forms (divisors 0/1/-1, MIN dividends); non-trivial = outcome/state differs from plain NEXT"),
-    "C08": dict(modules=["Emu8086.Props.C08"], runs=[("l4", "run"), ("l3", "progs")], gen=["Arch", "ILiterals", "PPGrammar"],
+    "C08": dict(modules=["Emu8086.Props.C08"], runs=[("l4", "run"), ("l3", "progs"), ("l3", "jumpspell"), ("l3", "roles")], gen=["Arch", "ILiterals", "PPGrammar"],
                 rule="L4 run: structured terminating programs (procedures first, labels at every position incl. last / before procedures / macro uses / prints, "
                      "forward jumps, bounded LOOPs, calls of calls, start in the middle, code after hlt) executed by the REAL binary; the executed-instruction "
                      "trace, final registers and memory (verification hook) and stdout must equal the model's run loop; L3 progs: random whole programs through "
                      "the real assembler (label/procedure indices, source map); non-trivial = more than one instruction executed / program accepted"),
-    "C10": dict(modules=["Emu8086.Props.C10"], runs=[("l3", "shapes"), ("l3", "progs"), ("l4", "shapes"), ("l4", "diag")], gen=["Arch", "ILiterals", "PPGrammar"],
+    "C10": dict(modules=["Emu8086.Props.C10"], runs=[("l3", "shapes"), ("l3", "progs"), ("l4", "shapes"), ("l4", "diag"), ("l3", "jumpspell"), ("l3", "roles")], gen=["Arch", "ILiterals", "PPGrammar"],
                 rule="shapes: EVERY code-emitting alternative of the CURRENT assembler grammar x every spelling of its mnemonic table x sampled operands "
                      "(generated from the grammar on each run); L3 = real Preprocessor vs model (byte-identical lines); L4 = the same programs executed by the real "
                      "binary: the real DataParser / Interpreter / PrintParser judge every emitted line (any 'Internal Error' is a violation); non-trivial = accepted program"),
